@@ -36,6 +36,8 @@ type Solver struct {
 	Unknown int
 	Errors  int
 	broken  bool
+	mirror  [][]string // per push level: every declaration/definition/assertion line sent (for re-deciding a query with another solver)
+	Fallbacks int
 	Log     io.Writer
 	timeout int // ms
 	buf     strings.Builder
@@ -71,6 +73,7 @@ func NewSolver(kind string, timeoutMs int) (*Solver, error) {
 	s := &Solver{Kind: kind, cmd: cmd, in: in, w: bufio.NewWriterSize(in, 1<<16), out: bufio.NewReaderSize(out, 1<<16), timeout: timeoutMs}
 	s.defined = []map[*Term]bool{{}}
 	s.declUF = []map[string]bool{{}}
+	s.mirror = [][]string{nil}
 	if strings.HasPrefix(kind, "z3") {
 		s.send("(set-option :produce-models true)")
 		s.send(fmt.Sprintf("(set-option :timeout %d)", timeoutMs))
@@ -106,16 +109,21 @@ func (s *Solver) send(line string) {
 	}
 	s.w.WriteString(line)
 	s.w.WriteByte('\n')
+	if len(line) > 3 && (line[1] == 'd' || line[1] == 'a') { // (declare-fun / (define-fun / (assert
+		s.mirror[len(s.mirror)-1] = append(s.mirror[len(s.mirror)-1], line)
+	}
 }
 
 func (s *Solver) Push() {
 	s.send("(push 1)")
+	s.mirror = append(s.mirror, nil)
 	s.defined = append(s.defined, map[*Term]bool{})
 	s.declUF = append(s.declUF, map[string]bool{})
 }
 
 func (s *Solver) Pop() {
 	s.send("(pop 1)")
+	s.mirror = s.mirror[:len(s.mirror)-1]
 	s.defined = s.defined[:len(s.defined)-1]
 	s.declUF = s.declUF[:len(s.declUF)-1]
 }
@@ -292,10 +300,55 @@ func (s *Solver) Check() Result {
 func (s *Solver) CheckWith(st *Store, extra *Term) Result {
 	r := s.ref(st, extra) // define outside the push so that definitions persist at this level
 	s.send("(push 1)")
+	s.mirror = append(s.mirror, nil)
 	s.send("(assert " + r + ")")
 	res := s.Check()
 	s.send("(pop 1)")
+	s.mirror = s.mirror[:len(s.mirror)-1]
 	return res
+}
+
+// CheckWithFallback is CheckWith for final obligations: an `unknown` from the primary solver is re-decided from scratch
+// by the other installed solvers (one-shot processes on the mirrored assertion stack).
+func (s *Solver) CheckWithFallback(st *Store, extra *Term, timeoutMs int) Result {
+	res := s.CheckWith(st, extra)
+	if res != Unknown {
+		return res
+	}
+	r := s.ref(st, extra)
+	var b strings.Builder
+	b.WriteString("(set-logic ALL)\n")
+	for _, lvl := range s.mirror {
+		for _, l := range lvl {
+			b.WriteString(l)
+			b.WriteByte('\n')
+		}
+	}
+	b.WriteString("(assert " + r + ")\n(check-sat)\n")
+	f, err := os.CreateTemp("", "gose_q_*.smt2")
+	if err != nil {
+		return Unknown
+	}
+	defer os.Remove(f.Name())
+	f.WriteString(b.String())
+	f.Close()
+	secs := timeoutMs/1000 + 1
+	for _, alt := range [][]string{{"z3-new", "-smt2", fmt.Sprintf("-T:%d", secs), f.Name()}, {"cvc5", "--lang=smt2", fmt.Sprintf("--tlimit=%d", timeoutMs), f.Name()}, {"/usr/bin/z3", "-smt2", fmt.Sprintf("-T:%d", 2*secs), f.Name()}} {
+		out, _ := exec.Command(alt[0], alt[1:]...).Output()
+		txt := string(out)
+		if strings.Contains(txt, "(error") {
+			continue
+		}
+		switch strings.TrimSpace(strings.SplitN(txt, "\n", 2)[0]) {
+		case "sat":
+			s.Fallbacks++
+			return Sat
+		case "unsat":
+			s.Fallbacks++
+			return Unsat
+		}
+	}
+	return Unknown
 }
 
 // readSexp reads one balanced s-expression (possibly multi-line) from the solver.
